@@ -608,6 +608,8 @@ def cli_sessions(chk):
                 suite["env"] = dict(env)
             if loc:
                 suite["location"] = loc
+                # a build of the suite runs where its benchmarks run: in the location, ~ expanded
+                suite["build"] = ["pwd > %s" % os.path.join(W, "built-%d.txt" % i)]
             raw = {"executors": {"E": {"path": W, "executable": core.PY + " -S"}}, "benchmark_suites": {"S": suite},
                    "experiments": {"X": {"executions": [{"E": {"suites": ["S"]}}]}}}
             # the harness is given by absolute path through the executor path: "<W>/<python> -S harness.py" does not
@@ -641,6 +643,12 @@ def cli_sessions(chk):
                 exp_env = {k2: " ".join(tilde_home(w, home) for w in v2.split()) for k2, v2 in env.items()}
                 if environ != exp_env:
                     chk.violation("C03 the child sees exactly the configured variables, none inherited", case, exp_env, environ)
+            if loc:
+                bf = os.path.join(W, "built-%d.txt" % i)
+                built_in = open(bf).read().strip() if os.path.exists(bf) else None
+                if built_in is None or os.path.realpath(built_in) != os.path.realpath(tilde_home(loc, home)):
+                    chk.violation("C03 the build script of a suite runs in the suite's location (a leading ~ expanded, as for its benchmarks)",
+                                  case, os.path.realpath(tilde_home(loc, home)), built_in)
             if per != {"B0": N, "B1": N}:
                 chk.violation("C03 every invocation started once", case, {"B0": N, "B1": N}, per)
             chk.case(("cli", i))
